@@ -640,7 +640,49 @@ pub fn gen_req(r: &mut Rng) -> ReqHead {
             f.value = render_langs(&langs);
         }
     }
-    ReqHead { method, target: target(r), ver, fields, langs }
+    let mut h = ReqHead { method, target: target(r), ver, fields, langs };
+    if r.chance(2, 5) {
+        clean_req(&mut h);
+    }
+    h
+}
+
+/// rewrite a generated head so that it lies outside every known-finding class: canonical letter case
+/// for listed names, no Unicode white space in values, plain `;q=` weights, lower-case primary tags
+fn clean_fields(fields: &mut [Field], names: &[&str]) {
+    for f in fields.iter_mut() {
+        if let Some(c) = names.iter().find(|n| n.as_bytes().eq_ignore_ascii_case(&f.name)) {
+            f.name = c.as_bytes().to_vec();
+        }
+        if let Ok(t) = std::str::from_utf8(&f.value) {
+            if t.chars().any(|c| c.is_whitespace() && !c.is_ascii()) {
+                f.value = b"plain value".to_vec();
+            }
+        }
+    }
+}
+fn clean_req(h: &mut ReqHead) {
+    clean_fields(&mut h.fields, &REQ_NAMES);
+    if h.method == b"REPORT" || h.method == b"MKCALENDAR" {
+        h.method = b"GET".to_vec();
+    }
+    for i in h.langs.iter_mut() {
+        if let Some(w) = &mut i.weight {
+            w.ows.clear();
+            w.trail.clear();
+            w.upper = false;
+        }
+        let cut = i.tag.iter().position(|b| *b == b'-').unwrap_or(i.tag.len());
+        for b in i.tag[..cut].iter_mut() {
+            *b = b.to_ascii_lowercase();
+        }
+    }
+    if !h.langs.is_empty() {
+        let v = render_langs(&h.langs);
+        if let Some(f) = h.fields.iter_mut().find(|f| f.name.eq_ignore_ascii_case(b"accept-language")) {
+            f.value = v;
+        }
+    }
 }
 
 pub fn gen_res(r: &mut Rng) -> ResHead {
@@ -662,7 +704,11 @@ pub fn gen_res(r: &mut Rng) -> ResHead {
         _ => b"OK".to_vec(),
     };
     let n = n_fields(r);
-    ResHead { ver, status, reason, fields: (0..n).map(|_| field(r, &names)).collect() }
+    let mut fields: Vec<Field> = (0..n).map(|_| field(r, &names)).collect();
+    if r.chance(2, 5) {
+        clean_fields(&mut fields, &RES_NAMES);
+    }
+    ResHead { ver, status, reason, fields }
 }
 
 pub fn body(r: &mut Rng) -> Vec<u8> {
